@@ -4,11 +4,34 @@
 From ZC Require Import Model.EventMerge Proof.EventMerge.
 Open Scope Z_scope.
 
-(* additive tags (withEventMerge): merging the events of a block keeps the total amount *)
+(* additive tags (withEventMerge with a function that adds): per event index (provider + reward type, client ...),
+   per field of the payload (for the stake pool reward: Reward, DelegateRewards, DelegatePenalties) and per subkey of a
+   map field (delegate pool id) the merged events carry exactly the total of the events of the block - whatever
+   fields are zero or empty in the individual events *)
 Theorem C20_additive_tags_preserve_sum :
+  forall n f k idx es, Forall (emf_shaped n) es ->
+    emf_idx_total f k idx (emf_merge es) = emf_idx_total f k idx es.
+Proof. exact emf_merge_total. Qed.
+Print Assumptions C20_additive_tags_preserve_sum.
+
+(* the same for the one-amount view used by the block cases *)
+Theorem C20_additive_amounts_preserve_sum :
   forall es, Forall em_single es -> em_all_sum (em_merge es) = em_all_sum es.
 Proof. exact em_merge_sum. Qed.
-Print Assumptions C20_additive_tags_preserve_sum.
+Print Assumptions C20_additive_amounts_preserve_sum.
+
+(* the merge functions of the regenerated table are these additions: every tag whose handler adds to a stored total
+   is merged by a function whose body is exactly one addition per consumed field (no early return, no condition), and
+   every other withEventMerge merger is one of the keyed-replace tags *)
+Theorem C20_merge_functions_add_every_field :
+  em_spec_holds gen_event_mergers gen_merge_fns = true /\ em_merge_tags_covered gen_event_mergers = true.
+Proof. exact em_spec_table. Qed.
+Print Assumptions C20_merge_functions_add_every_field.
+
+Theorem C20_stake_pool_reward_adds_all_three :
+  em_fn_of gen_merge_fns "TagStakePoolReward" = Some (MfAdd [("Reward", FScalar); ("DelegateRewards", FMap); ("DelegatePenalties", FMap)]).
+Proof. exact em_reward_fn. Qed.
+Print Assumptions C20_stake_pool_reward_adds_all_three.
 
 (* tags without middleware keep every event *)
 Theorem C20_keep_tags_keep_all : forall es, em_apply EmKeep es = es.
@@ -60,3 +83,10 @@ Proof. exact ew_additive_example. Qed.
 Example C20_example_overwrite :
   map ev_data (em_overwrite [ew_lock 7 5; ew_lock 8 9; ew_lock 7 7]) = [[(7, 7)]; [(8, 9)]].
 Proof. exact ew_overwrite_example. Qed.
+
+(* a provider rewarded three times with one reward type in a block: the later events have no provider share but
+   delegate rewards / a penalty; pool 21 still gets 90 + 5, pool 22 gets 4 *)
+Example C20_example_stake_pool_reward :
+  emf_merge ew_rewards = [ew_reward 1 10 [(21, 95); (22, 4)] [(22, 1)]; ew_reward 2 3 [] []] /\
+  emf_idx_total 1 21 1 (emf_merge ew_rewards) = 95 /\ emf_idx_total 1 22 1 (emf_merge ew_rewards) = 4.
+Proof. exact ew_reward_example. Qed.
